@@ -7,7 +7,7 @@
    end of this file. *)
 From Coq Require Import List NArith ZArith Bool.
 Import ListNotations.
-From VF Require Import Base Core Core_lemmas Core_inv Core_props Cluster Cluster_proofs Below_proofs Below_cluster.
+From VF Require Import Base Core Core_lemmas Core_inv Core_props Cluster Cluster_proofs Below_proofs Below_cluster Extra_proofs.
 
 (* in every reachable state of the cluster, under every schedule, every claim about a member — a record
    held by any node, a broadcast queued anywhere, anything ever put on the network — carries at most
@@ -60,6 +60,14 @@ Theorem C05_refutation_accepted : forall c s inc name addr meta vsn r,
   exists r', lk s' name = Some r' /\ rst r' = Alive /\ rinc r' = inc /\ raddr r' = addr /\ rmeta r' = meta.
 Proof. exact newer_alive_accepted. Qed.
 Print Assumptions C05_refutation_accepted.
+
+(* push/pull: an entry that reports a member Alive at incarnation i lifts the receiver's record of that member
+   (same address) to at least i, whatever it held, and never lowers it *)
+Theorem C05_exchange_lifts_alive : forall c s inc name addr meta vsn r,
+  lk s name = Some r -> name <> self c -> raddr r = addr -> vsn_bad vsn = false ->
+  exists r', lk (fst (do_merge c s Alive inc name addr meta vsn)) name = Some r' /\ (inc <= rinc r')%N /\ (rinc r <= rinc r')%N.
+Proof. exact merge_alive_lifts. Qed.
+Print Assumptions C05_exchange_lifts_alive.
 
 (* hearsay (a peer's Suspect/Dead entry in a push/pull) never removes a member: C09_hearsay *)
 Theorem C05_hearsay_only_suspects : forall c s rs inc n addr meta vsn r,
